@@ -37,6 +37,10 @@ CLAIMED = {
  'C17': dict(cat='proof', ref='4/C17',
    text='Each of the 94 extern "C" wrappers of cmasa.cpp calls exactly the <double> template the naming convention prescribes with its own arguments in order and returns that value (bit-identical doubles up to NaN payload); masa_init_param/masa_sanity_check/masa_get_array return the callee status; masa_get_array copies length and contents (loop contract); masa_set_array builds the vector from the first *n values; masa_get_name copies the string back into the caller buffer.',
    note='templates are uninterpreted functions + ghost call record; std::string/std::vector are opaque handles; caller buffer capacity is an API assumption; masa_test_default (process-terminating test helper) not under contract', tech='CBMC code contracts (DFCC) on C extracted mechanically from masa_core.cpp / masa_internal.h / cmasa.cpp; outgoing calls as recorded uninterpreted functions; contracts generated from the API naming convention; SAT back end'),
+
+ 'C05': dict(cat='proof', ref='4/C05',
+   text='rans_sa: every helper (du,d2u,dnu,d2nu,chi,fv1,fv2,vt,s,r,g,fw,cw1,production,destruction,transport) proved against its SA definition / jet derivative and eval_q_u, eval_q_v proved modularly against the callee contracts; free-shear FANS-SA: mass source, nu field, exact fields and the two-argument == three-argument(t=0) obligations proved; three free-shear momentum/energy sources are KNOWN FINDINGS (frozen f_v1 derivative, missing rho c_v T_t). 15 functions (rans_sa dvt, free-shear eval_q_nu(x,y,t) and two wrappers, all wall-bounded evaluators) are only BOUNDED: un-weakened contracts compared with the extracted code on 2e4 (thorough 2e6) sampled admissible inputs in long double, never counted as proved.',
+   note='real arithmetic instead of IEEE; libm as uninterpreted functions + axioms of lib/real.h; denominators assumed non-zero; extractor rule table; CBMC DFCC + SMT solver' + '; eval_q_u of rans_sa is proved relative to the bounded contract of dvt; bounded stand-ins are sampling, not proof (listed under coverage.bounded)', tech='CBMC code contracts (goto-instrument --dfcc --enforce-contract) on C extracted mechanically from the C++ source each run; __CPROVER_rational + SMT portfolio (cvc5/z3); native twin + real-class replay for counterexamples' + '; bounded stand-in = native twin sampling, labelled bounded'),
 }
 
 NOT_YET = 'contract check not built yet in this session (see DESIGN.md section 4 for the plan)'
